@@ -287,9 +287,7 @@ def _run(chk, quick, rng, pool):
                    (2, True, '{1, 2, 3, 4}', 2, 3, ALL_OPS, fix, False),
                    (2, True, '{1, 2, 3, 4}', 2, 3, ALL_OPS, allfix, False),
                    (3, True, '{1, 2, 3}', 2, 3, ALL_OPS, fix, False),
-                   (3, True, '{1, 2, 3}', 2, 3, ALL_OPS, allfix, False),
-                   (3, False, '{1, 2}', 1, 5, '{"add", "core", "update"}', fix, False),
-                   (3, False, '{1, 2}', 1, 4, '{"add", "core", "update", "convert"}', allfix, False)]
+                   (3, False, '{1, 2}', 1, 5, '{"add", "core", "update"}', fix, False)]
 
     def design(d):
         nu, bad, pset, mb, mo, ops, fx, cov = d
@@ -309,12 +307,15 @@ def _run(chk, quick, rng, pool):
         jobs.append(('regression', ('fixed', list(DESIGN_STRINGS), h, modes[i % 2 * 2])))
     # (a1) one history per transition of the bounded reference model
     if quick:
-        gens = [(2, True, '{1, 2, 3, 4}', 2, 2, ALL_OPS, None)]
+        gens = [(2, True, '{1, 2, 3, 4}', 2, 2, ALL_OPS, 1)]     # last field: execute every k-th history
     else:
-        gens = [(2, True, '{1, 2, 3, 4}', 2, 3, ALL_OPS, None), (3, False, '{1, 2}', 1, 3, '{"add", "core", "update"}', None)]
+        gens = [(2, True, '{1, 2, 3, 4}', 2, 3, ALL_OPS, 3), (3, False, '{1, 2}', 1, 3, '{"add", "core", "update"}', 1)]
     per_transition = 0
     for g in gens:
         hs, res = tlc_histories(fix, *g[:6])
+        nall = len(hs)
+        # every history of at most 2 calls, every k-th of the longer ones
+        hs = [h for i, h in enumerate(hs) if len(h) <= 2 or i % g[6] == 0]
         strings = design_strings(g[0], g[1])
         for i, h in enumerate(hs):
             has_reopen = any(o['op'] == 'reopen' for o in h)
@@ -323,21 +324,22 @@ def _run(chk, quick, rng, pool):
         per_transition += len(hs)
         chk.extra.setdefault('transition_graphs', []).append(
             {'NU': g[0], 'BadLast': g[1], 'PSet': g[2], 'MaxBatch': g[3], 'MaxOps': g[4], 'OpsOn': g[5],
-             'transitions': res['distinct'] - 1, 'histories': len(hs)})
+             'transitions': res['distinct'] - 1, 'histories_generated': nall, 'histories_executed': len(hs)})
     # (a2) simulation: more URLs, 30 calls, depth-5 histories with 3 URLs
-    sims = [(5, True, '{1, 2, 3, 4}', 2, 30, ALL_OPS, 10 if quick else 300),
-            (3, True, '{1, 2, 3, 4}', 2, 5, ALL_OPS, 30 if quick else 1500)]
+    sims = [(5, True, '{1, 2, 3, 4}', 2, 30, ALL_OPS, 10 if quick else 60),
+            (3, True, '{1, 2, 3, 4}', 2, 5, ALL_OPS, 30 if quick else 300)]
     for j, g in enumerate([] if light else sims):
         hs, res = tlc_histories(fix, *g[:6], simulate=g[6], seed=chk.seed + 11 + j)
         strings = design_strings(g[0], g[1])
         for i, h in enumerate(hs):
             jobs.append(('tlc-simulation', ('fixed', strings, h, modes[1 + 2 * (i % 2)] if i % 3 else modes[i % 4])))
     # (b) seeded random histories over arbitrary strings
-    nrand = 48 if quick else 1200
+    nrand = 48 if quick else 200
     for i in range(nrand):
         jobs.append(('random', ('random', rng.randrange(2 ** 30), rng.randrange(50, 201), modes[i % 4])))
 
     timing['generate'] = round(time.time() - t0, 1)
+    timing['histories'] = len(jobs)
     traces = pool.map(_job, [j for (_, j) in jobs], chunksize=4)
     origins = [o for (o, _) in jobs]
     timing['execute'] = round(time.time() - t0, 1)
